@@ -350,41 +350,3 @@ def shrink(case):
         c["inst_attrs"] = [0] * len(case["inst_attrs"])
         yield c
 
-
-# ------------------------------------------------------------------------------------------------
-# signature predicates for known_findings.json (to be copied into vharness/signatures.py by the coordinator IF
-# the two CumulativeProfile defects are recorded rather than repaired):  pred(case, observed, code) -> bool
-# ------------------------------------------------------------------------------------------------
-def sig_c17_cumulativeprofile_ctor_legal_limits(case, obs, code):
-    """CumulativeProfile(..., legal_min_length/legal_max_length/legal_min_score/legal_max_score=...) drops these four:
-    start class CumulativeProfile, code 1, one of the four requested non-default, nothing else lost"""
-    st = case.get("start", {})
-    if st.get("cls") != "CumulativeProfile" or code != 1 or not isinstance(obs, dict) or "start" not in obs:
-        return False
-    req, got = st["attrs"], obs["start"]["attrs"]
-    return (any(req[3:7]) and got[3:7] == [0, 0, 0, 0] and got[:3] == req[:3] and got[7:] == req[7:]
-            and obs["start"]["cls"] == X.TAG["CumulativeProfile"])
-
-
-def sig_c17_empty_cumulative_as_multiprofile(case, obs, code):
-    """as_multiprofile() of an EMPTY CumulativeProfile drops legal_min_total_score / legal_max_total_score"""
-    st = case.get("start", {})
-    if st.get("cls") != "CumulativeProfile" or code not in (3, 11) or not isinstance(obs, dict) or "steps" not in obs:
-        return False
-    prev = obs["start"]
-    bad_elsewhere = False
-    hit = False
-    for op, s in zip(case["ops"], obs["steps"]):
-        if s["kind"] == "new":
-            r = s["res"]
-            if op[0] == "as_multiprofile":
-                a, b = prev["attrs"], r["attrs"]
-                if a[:2] + a[3:] != b[:2] + b[3:]:
-                    if not prev["payload"] and a[:2] + a[3:7] == b[:2] + b[3:7] and b[7:] == [0, 0] and any(a[7:]):
-                        hit = True
-                    else:
-                        bad_elsewhere = True
-            elif r["cls"] == prev["cls"] and r["attrs"] != prev["attrs"]:
-                bad_elsewhere = True
-        prev = s["cur"]
-    return hit and not bad_elsewhere
